@@ -45,14 +45,17 @@ def s_add_u32 (i : ScalarIn) : ScalarOut :=
 def s_sub_u32 (i : ScalarIn) : ScalarOut :=
   let a := lo i.src0; let b := lo i.src1
   ret32 (a - b) (decide (a.toNat < b.toNat))
+/-- the exact signed sum / difference does not fit 32 bits -/
+def addOvf (a b : BitVec 32) : Bool := decide (a.toInt + b.toInt ≥ 2147483648 ∨ a.toInt + b.toInt < -2147483648)
+def subOvf (a b : BitVec 32) : Bool := decide (a.toInt - b.toInt ≥ 2147483648 ∨ a.toInt - b.toInt < -2147483648)
 /-- D = S0 + S1; SCC = signed overflow -/
 def s_add_i32 (i : ScalarIn) : ScalarOut :=
   let a := lo i.src0; let b := lo i.src1
-  ret32 (a + b) (decide (a.toInt + b.toInt ≥ 2147483648 ∨ a.toInt + b.toInt < -2147483648))
+  ret32 (a + b) (addOvf a b)
 /-- D = S0 − S1; SCC = signed overflow -/
 def s_sub_i32 (i : ScalarIn) : ScalarOut :=
   let a := lo i.src0; let b := lo i.src1
-  ret32 (a - b) (decide (a.toInt - b.toInt ≥ 2147483648 ∨ a.toInt - b.toInt < -2147483648))
+  ret32 (a - b) (subOvf a b)
 /-- D = S0 + S1 + SCC; SCC = unsigned carry out -/
 def s_addc_u32 (i : ScalarIn) : ScalarOut :=
   let a := lo i.src0; let b := lo i.src1
